@@ -654,6 +654,45 @@ CONDITIONS.append({"fn": "c26_tag_ws_between", "quick": 60, "thorough": 120, "se
                    "bounds": "12 x 12 whitespace strings between / around three placeholders, 4 tag forms"})
 
 
+# ---- placeholder names outside ASCII (valid Liquid identifiers: the tokenizer's word pattern is Unicode) ------------------
+U_NAMES = ["gr\u00f6\u00dfe", "pr\u00e9nom", "\u540d\u524d", "total_gr\u00f6\u00dfe", "\u00df", "x1", "_a", "\u0416", "\u00f1o", "\u0661x"]
+U_FORMS = [("{{ 'A %(N)s, 100% B %(N)s' | t: N: v }}", "A V, 100% B V"),
+           ("{{ 'A %(N)s' | gettext: N: v }}", "A V"),
+           ("{{ 'one %(N)s' | ngettext: 'many %(N)s', 2, N: v }}", "many V"),
+           ("{{ 'A %(N)s' | pgettext: 'ctx', N: v }}", "A V"),
+           ("{{ 'one %(N)s' | npgettext: 'ctx', 'many %(N)s', 1, N: v }}", "one V"),
+           ("{% translate N: v %}A {{ N }}, 100%{% endtranslate %}", "A V, 100%"),
+           ("{% assign N = v %}{% translate %}A {{ N }} {{ N }}{% endtranslate %}", "A V V"),
+           ("{% translate count: 2, N: v %}one {{ N }}{% plural %}many {{ N }}{% endtranslate %}", "many V"),
+           ("{% assign N = v %}{{ 'A %(N)s' | t }}", "A V"),
+           ("{{ 'A %(N)s %(other)s' | t: other: v, N: 'W' }}", "A W V")]
+_U_T = {}
+
+
+def unicode_name_case(ni, fi):
+    key = (ni, fi)
+    if key not in _U_T:
+        _U_T[key] = ENV.from_string(U_FORMS[fi][0].replace("N", U_NAMES[ni]))
+    return render(_U_T[key], {"v": "V"}), U_FORMS[fi][1]
+
+
+def c26_unicode_names(ni: int, fi: int) -> bool:
+    """
+    pre: 0 <= ni <= 9 and 0 <= fi <= 9
+    post: _
+    """
+    if excluded("c26_unicode_names", locals()):
+        return True
+    ni, fi = cint(ni, 0, 9), cint(fi, 0, 9)
+    out, exp = untraced(lambda: unicode_name_case(ni, fi))
+    return finish(out == exp)
+
+
+DETAIL["c26_unicode_names"] = lambda ni, fi: {"template": U_FORMS[fi][0].replace("N", U_NAMES[ni]), "observed": unicode_name_case(ni, fi)[0], "expected": U_FORMS[fi][1]}
+CONDITIONS.append({"fn": "c26_unicode_names", "quick": 40, "thorough": 80, "sel_only": True,
+                   "bounds": "10 placeholder names (8 with letters or digits outside ASCII) x 10 filter / tag forms"})
+
+
 # ---- one parsed translate tag formatting several messages: the same template rendered again with another count, and the
 # tag inside a loop whose count changes per iteration (nothing learnt from one message may be applied to the next) ----------
 RR_PAIRS = [("One item", "{{ count }} items"), ("{{ count }} item", "Many items"), ("One %", "{{ count }} %%"), ("{{ n }} thing", "{{ n }} things ({{ count }})"),
